@@ -1,6 +1,7 @@
 package govc
 
 import (
+	"sync"
 	"fmt"
 	"go/token"
 	"go/types"
@@ -52,6 +53,8 @@ type Obligation struct {
 	Pos     token.Position
 	Desc    string
 	Queries []*Query
+	mu      sync.Mutex
+	failed  bool
 	Aux     bool // auxiliary (inferred-candidate) obligation: failure is not a violation
 }
 
@@ -94,6 +97,7 @@ type Frame struct {
 	Vals   map[ssa.Value]Value
 	Cells  map[*ssa.Alloc]*Term
 	Loops  []*ActiveLoop
+	Iters  map[ssa.Value]*iterState
 	CallIn *ssa.Call // call instruction in the caller frame awaiting our result (nil for top)
 	Inlined bool
 }
@@ -151,6 +155,12 @@ func (s *State) clone() *State {
 		for _, l := range f.Loops {
 			cp := *l
 			nf.Loops = append(nf.Loops, &cp)
+		}
+		if f.Iters != nil {
+			nf.Iters = make(map[ssa.Value]*iterState, len(f.Iters))
+			for k, v := range f.Iters {
+				nf.Iters[k] = v
+			}
 		}
 		n.Frames = append(n.Frames, nf)
 	}
@@ -261,6 +271,7 @@ type Unit struct {
 	globalInit    map[*ssa.Global]*Term
 	siteOrd       map[ssa.Instruction]map[string]int
 	disabled      map[string]bool
+	mapTypes      map[string]types.Type
 	Pkg           *ssa.Package
 }
 
@@ -486,6 +497,21 @@ func (u *Unit) declareInitialHeap(name, key string, elem types.Type) {
 // Call after s.Alloc has been advanced.
 func (u *Unit) havocHeap(s *State, key string, old *Term) *Term {
 	nh := u.fresh(s, "H_"+key, old.Sort)
+	if strings.HasPrefix(key, "M:") {
+		if mt := u.mapTypes[key]; mt != nil {
+			mp := mt.Underlying().(*types.Map)
+			od := u.optDT(mp.Elem())
+			k := Leaf("k!m", u.W.SortOf(mp.Key()))
+			s.assume(Forall([]*Term{k}, Not(Sel(od, 0, Select(Select(nh, IntLit(0)), k))), Select(Select(nh, IntLit(0)), k)))
+		}
+		return nh
+	}
+	if strings.HasPrefix(key, "ML:") {
+		r := Leaf("r!m", "Int")
+		s.assume(Eq(Select(nh, IntLit(0)), IntLit(0)))
+		s.assume(Forall([]*Term{r}, Ge(Select(nh, r), IntLit(0)), Select(nh, r)))
+		return nh
+	}
 	elem := u.heapElemTypes[key]
 	if elem == nil || !needsWF(elem) {
 		return nh
